@@ -8,23 +8,49 @@ from harness.extract import request_core as x_core
 from harness.lib import scen
 from harness.lib.core import VERIF, Ctx, Rng, lean_lock, run_driver
 from harness.rigs import request as rig
+from harness.rigs import request_contract as rcon
+from harness.rigs import request_edits as redits
+from harness.rigs import request_state as rstate
 
 MANIFEST = {
     "text": "Lean 4 proof, for every request tree, validator valuation, handler semantics, state and request, that the model of "
             "RequestManager.__call__ (i) leaves the state untouched and answers unreachable/failure (never success) unless a handler is "
             "reached, (ii) changes state only through the reached handler, (iii) never answers unreachable when the path names existing "
             "components down to a handler, (iv) reports as failure only a permission rule lying on the request's own path at the reported "
-            "depth, all earlier rules holding, and (v) reaches the handler iff the target exists and every rule on the path holds. Tie: "
-            "shape of __call__/check_valid regenerated from core.py (Gen/RequestCore.lean) + rig R-req, which snapshots the live request "
-            "tree of real scenarios at random reachable states, evaluates every validator on the real objects, and compares status, depth, "
-            "handler and argument count with the model for every route, route mutations and requests formed from every registered action "
-            "type x existing/missing components; live mode checks the four documented statuses and state equality after refusals.",
+            "depth, all earlier rules holding, (v) reaches the handler iff the target exists and every rule on the path holds, and (vi) is "
+            "total on every request (empty, over-long, elements of any Python type; depth bounded by the length). Static part, over "
+            "tables regenerated from the source: every registered action's template resolves through the schematic request tree for every "
+            "node / software class it can address; on every live tree that is an instance (Inst) of the schema the rules met are exactly "
+            "the hand-written contract (expectedGuards), every component class carries its component gates on every edge of its root "
+            "manager (C05_component_gates: all node routes power-gated, incl. keys added by subclasses), and a false gate refuses the "
+            "request at that edge (C05_gate_refuses). Permission rules: every RequestPermissionValidator.__call__ (and get_folder / "
+            "get_file) is translated from the source and PROVED equal to its specification over a small model state; a failure names a "
+            "rule of the request's own route whose translated predicate is false on its own component. Dynamic part: the tree edits of "
+            "install / uninstall / connect / disconnect / create / restore / add / remove (addKey / removeKey at the dynamic manager under "
+            "a literal key of the owner's root manager) keep Inst for the edited inventory, are local, and leave no route through a "
+            "removed key; the regenerated schema meets the side conditions at every dynamic site, and every dynamic add site has a remove "
+            "site except the folder / file levels, whose stale keys are guarded by the exists / not-deleted rules. PARTIAL: 'every "
+            "request is answered' holds in the model only for requests that are refused or carry the options their handler reads "
+            "(C05_answered_partial / C05_answered_counterexample; open finding F-C05-2: 30 handlers raise IndexError on missing options). "
+            "Ties: Gen/RequestCore (shape of __call__/check_valid, unhashable-key guard), Gen/RequestSchema, Gen/ActionTemplates, "
+            "Gen/RequestValidators; rigs R-req (live trees at perturbed states incl. powered-off network devices: status, depth, handler, "
+            "#args vs the model; route mutations incl. unhashable / None / float / bool elements, empty and over-long requests; every "
+            "registered action x existing/missing components), the CONTRACT oracle and search (hand-written contract read from Lean, "
+            "evaluated on the object graph; one instance of every route-owning class driven into every gate-falsifying state; every "
+            "route raw + every action; suspects confirmed with the real handlers), deep state fingerprint (object-graph walk, logs "
+            "excluded) before/after every refused live request, R-schema, R-guards (real validator objects vs translated predicates), "
+            "R-edits (real tree edits vs addKey/removeKey), raw routes with the real handlers.",
     "note": "C05-specific: handlers are opaque state transformers in the model (what a reached handler does is covered by C12-C17); "
-            "that no code other than handlers mutates state on a refused request is carried by the rig's before/after comparison.",
-    "technique": "Lean 4 theorems over a model of request dispatch; regenerated shape table; differential rig on live request trees",
+            "that no code other than handlers mutates state on a refused request is carried by the rigs' before/after comparison "
+            "(describe_state and the deep fingerprint). C05_deep_edit_keeps_inst lifts a local edit to any ancestor manager under an "
+            "executable path condition (pathOKB), discharged for the regenerated schema at one concrete path, not for all paths at once. "
+            "The contract tables (expectedGuards, gate) are hand-written; the rigs validate Inst, the translation's input abstraction "
+            "and the edit sites against the running code, they do not prove them.",
+    "technique": "Lean 4 theorems over models of request dispatch, the schematic request tree, permission rules and tree edits; "
+                 "regenerated tables and translated predicates; differential rigs and a contract search on live request trees",
     "design_ref": "5/C05",
 }
-MODULES = ["PrimaiteModel.Props.C05"]
+MODULES = ["PrimaiteModel.Props.C05"]   # the static part (harness/props/c05x.py) adds C05Schema, C05Guards, C05Inst
 EXE = "drv_c05"
 QUICK_SCEN = ["data_manipulation", "basic_firewall", "basic_switched_network"]
 
@@ -51,8 +77,9 @@ def norm_model(line: str) -> Tuple[str, str, str]:
     return out, valid.split("=")[1], exists.split("=")[1]
 
 
-def explore(ctx: Ctx, want_live: bool = True, structure: bool = True) -> List[dict]:
-    """Runs R-req and returns one record per request: scenario, path, impl outcome, model outcome, impl/model mask, flags."""
+def explore(ctx: Ctx, want_live: bool = True, structure: bool = True, contract=None) -> List[dict]:
+    """Runs R-req and returns one record per request: scenario, path, impl outcome, model outcome, impl/model mask, flags.
+    With a `contract` (rigs/request_contract.Contract) every request is also judged against the hand-written contract."""
     reg = registry()
     rng = ctx.rng.fork("req")
     records: List[dict] = []
@@ -100,10 +127,19 @@ def explore(ctx: Ctx, want_live: bool = True, structure: bool = True) -> List[di
                     ctx.count("action-config-rejected")
                     continue
                 fam.append(("action:" + ident, req, rig.target_exists(sim, req)))
+            roots = rcon.Roots(sim) if contract is not None else None
+            if contract is not None:
+                contract.fill(roots.keys_seen())
             with rig.Probe(sim, snap, stub=True) as probe:
                 for kind, req, exists in fam:
                     vals, vexc = rig.valuation(rm, req, snap)
                     out, resp = probe.call(req)
+                    cbad = None
+                    if contract is not None and not out.startswith("raised"):
+                        rules, on_tree = rcon.route_contract(sim, roots, contract, req)
+                        ident = kind.split(":", 1)[1] if kind.startswith("action:") else None
+                        cbad = rcon.judge_request(rules, bool(exists) and on_tree, out, contract.guards.get(ident) if ident else None)
+                        ctx.count("contract-oracle:" + ("rule-false" if any(r[2] is False for r in rules) else "rules-hold"))
                     try:
                         mask = bool(rm.check_valid(list(req), {}))
                         mask_s = "1" if mask else "0"
@@ -111,23 +147,36 @@ def explore(ctx: Ctx, want_live: bool = True, structure: bool = True) -> List[di
                         mask_s = "raised " + type(e).__name__
                     lines.append(rig.model_line(req, vals))
                     records.append({"kind": kind, "scenario": name, "round": rnd, "req": req, "impl": out, "impl_mask": mask_s,
-                                    "exists": exists, "validator_raised": vexc})
+                                    "exists": exists, "validator_raised": vexc, "contract_bad": cbad,
+                                    "history": list(history) if cbad else None})
             if want_live:
                 live = [f for f in fam if f[0].startswith("action:")]
                 live = live[: ctx.scale(60, 300)]
+                deep_left = ctx.scale(60, 30)   # deep fingerprints cost 10-20 ms each: every live request in quick, a prefix in thorough
                 for kind, req, exists in live:
-                    before = json.dumps(sim.describe_state(), sort_keys=True, default=str)
+                    ds = sim.describe_state()
+                    before = json.dumps(ds, sort_keys=True, default=str)
+                    deep_left -= 1
+                    fp_before = rstate.fingerprint(sim) if deep_left >= 0 else None
                     with rig.Probe(sim, rig.Snap(sim._request_manager), stub=False) as probe:  # the tree changes as handlers run
                         out, resp = probe.call(req)
                     history.append(list(req))  # live requests change the state too: they are part of the path to later states
                     if True:
                         after = json.dumps(sim.describe_state(), sort_keys=True, default=str)
+                        deep = None
+                        if not out.startswith("reached") and fp_before is not None:   # refused: NOTHING below the simulation may differ
+                            deep = rstate.diff(fp_before, rstate.fingerprint(sim))
+                            ctx.count("live:refused-deep-fingerprint-compared")
+                            ctx.cov["deep_fingerprint_entries_max"] = max(ctx.cov.get("deep_fingerprint_entries_max", 0), len(fp_before))
+                            ctx.cov["describe_state_leaves_max"] = max(ctx.cov.get("describe_state_leaves_max", 0),
+                                                                       rstate.leaf_count_describe_state(ds))
                         records.append({"kind": "live:" + kind, "scenario": name, "round": rnd, "req": req, "impl": out,
                                         "where": getattr(probe, "last_where", None) if out.startswith("raised") else None,
                                         "msg": getattr(probe, "last_msg", None) if out.startswith("raised") else None,
                                         "history": list(history[:-1]),
                                         "status": getattr(resp, "status", None) if not isinstance(resp, Exception) else "raised",
-                                        "resp_type": type(resp).__name__, "unchanged": before == after, "exists": exists})
+                                        "resp_type": type(resp).__name__, "unchanged": before == after, "exists": exists,
+                                        "deep_diff": deep})
     model = run_driver(EXE, lines)
     # align: every record except live ones consumed one model line
     mi = 0
@@ -168,6 +217,12 @@ def judge(ctx: Ctx, records: List[dict]):
             elif not r["impl"].startswith("reached") and not r["unchanged"]:
                 ctx.violation({"kind": "refused-request-changed-state", "action": k.split(":", 2)[2]},
                               f"refused request {r['req']} ({r['impl']}) changed describe_state()", {"scenario": r["scenario"], "req": r["req"]})
+            elif not r["impl"].startswith("reached") and r.get("deep_diff"):
+                where = r["deep_diff"][0].split(":")[0].rsplit("/", 1)[-1]
+                ctx.violation({"kind": "refused-request-changed-state(deep)", "action": k.split(":", 2)[2], "where": where},
+                              f"refused request {r['req']} ({r['impl']}) left describe_state() unchanged but changed the object graph: "
+                              f"{r['deep_diff'][:4]}", {"scenario": r["scenario"], "req": r["req"], "history": r.get("history"),
+                                                        "deep_diff": r["deep_diff"]})
             elif r["exists"] is False and r["status"] == "success":
                 ctx.violation({"kind": "success-on-missing-component", "action": k.split(":", 2)[2]},
                               f"request {r['req']} addresses a component that does not exist but was answered success",
@@ -186,6 +241,13 @@ def judge(ctx: Ctx, records: List[dict]):
                           f"request {r['req']} raised {r['impl']} instead of answering (stubbed handlers)",
                           {"scenario": r["scenario"], "round": r["round"], "req": r["req"], "observed": r["impl"]})
             continue
+        if r.get("contract_bad"):
+            b = r["contract_bad"]
+            ctx.violation({"kind": b["kind"], "rule": b.get("rule"), "component": b.get("component"), "class": b.get("class"),
+                           "via": k if k.startswith("action:") else "raw-route", "answered": "stubbed"},
+                          f"{r['scenario']} round {r['round']}: request {r['req']} disagrees with the contract ({b}); outcome with stubbed "
+                          f"handlers {r['impl']!r}", {"scenario": r["scenario"], "round": r["round"], "req": r["req"], "history": r.get("history"),
+                                                     "impl": r["impl"], "model": "failure" if b["kind"] == "contract-rule-not-enforced" else "reached"})
         if r["impl"] == r["model"]:
             agree += 1
         else:
@@ -206,6 +268,11 @@ def judge(ctx: Ctx, records: List[dict]):
 def replay(rec: dict) -> bool:
     """Re-run one recorded request on a fresh build of its scenario (round 0 state) with stubbed and live handlers."""
     rp = rec["replay"]
+    if "ops" in rp and ("zoo_seed" in rp or "gen_family" in rp or "scenario" in rp) and "req" in rp and "state" in rp:
+        return rcon.replay(rp, registry())   # a contract-search replay
+    if "setup_ops" in rp:                    # recorded by the static part's rigs (R-schema / R-guards)
+        from harness.props import c05x
+        return c05x.replay(rec)
     cfg = scen.load_cfg(scen.shipped()[rp["scenario"]])
     game = scen.make_game(cfg)
     sim = game.simulation
@@ -249,13 +316,47 @@ def corpus(ctx: Ctx):
         ctx.count("corpus")
         st = getattr(resp, "status", None)
         ctx.case({"corpus": f.name}, True)
+        if w.get("open_finding_sig"):   # witness of an OPEN finding: reported under the finding's own signature (KNOWN-FINDING)
+            if out.startswith("raised") or st not in DOCUMENTED:
+                ctx.violation(dict(w["open_finding_sig"]), f"corpus witness {f.name} ({w['note']}): {out}",
+                              {"scenario": w["scenario"], "req": w["req"], "observed": out})
+            else:
+                ctx.notes.append(f"open finding witness {f.name} no longer fails ({out} / {st}): the finding may be closed")
+            continue
         if out.startswith("raised") or st not in DOCUMENTED or (w.get("expect_not_unreachable") and st == "unreachable"):
             ctx.violation({"kind": "corpus-witness-fails-again", "witness": f.name},
                           f"corpus witness {f.name} ({w['note']}) fails again: {out} / status {st!r}",
                           {"scenario": w["scenario"], "req": w["req"], "observed": out})
 
 
+def edits(ctx: Ctx):
+    """R-edits: real install / uninstall / connect / disconnect / create / delete / restore / add / remove against addKey / removeKey"""
+    rng = ctx.rng.fork("edits")
+    bad: List[str] = []
+    games = [("zoo#7", lambda: rcon.zoo_game(7)[0])]
+    for name, path in scenarios(ctx).items():
+        games.append((name, lambda path=path: scen.make_game(scen.load_cfg(path))))
+    for label, make in games:
+        try:
+            sim = make().simulation
+        except Exception:
+            continue
+        bad += redits.exercise(ctx, label, sim, rng.fork(label))
+    ctx.oblige("rig:R-edits every real tree edit is local, leads to the component's own manager / leaves no route, and orders keys like "
+               "addKey / removeKey", "correspondence", not bad, "; ".join(bad[:6]))
+    for b in bad[:1]:
+        ctx.violation({"kind": "tree-edit-differs-from-model", "edit": b.split(": ")[1] if ": " in b else "?"},
+                      "a real request-tree edit differs from the model's addKey/removeKey (Props/C05Inst.lean): " + b, {"detail": bad[:6]})
+
+
+def _stage(ctx: Ctx, name: str, t0: float):
+    import time
+    ctx.cov.setdefault("stage_seconds", {})[name] = round(time.time() - t0, 1)
+
+
 def run(ctx: Ctx):
+    import time
+    t0 = time.time()
     with lean_lock():
         ctx.extract("RequestCore", x_core.emit)
         ctx.prove(MODULES, exes=[EXE], leanchecker=ctx.thorough)
@@ -263,8 +364,31 @@ def run(ctx: Ctx):
                        "requests formed from every registered action type with parameters naming existing or missing components, at the "
                        "initial state and at random perturbed states (nodes off/booting, services stopped/disabled, files deleted, software "
                        "uninstalled) of shipped scenarios; non-trivial = not simply reaching its handler; distinct by (scenario, round, request)")
+    _stage(ctx, "lean:C05", t0)
+    t0 = time.time()
     corpus(ctx)
-    judge(ctx, explore(ctx))
+    try:
+        contract = rcon.Contract(sorted(registry()))
+    except Exception as e:
+        contract = None
+        ctx.notes.append(f"contract tables not readable from drv_c05: {type(e).__name__}: {e}")
+    judge(ctx, explore(ctx, contract=contract))
+    _stage(ctx, "R-req+contract-oracle+live", t0)
+    t0 = time.time()
+    # contract search: every route-owning class driven into every gate-falsifying state, judged against the hand-written contract
+    ctx.cov["rule_contract"] = ("R-contract: one instance of every node / NIC / service / application class, a folder and a file per node "
+                                "class, of a zoo game (every registered node type, every registered software class), of the shipped "
+                                "scenarios and of generated families, driven into every state that falsifies a component gate; every route "
+                                "below the component raw (stubbed) + every action naming it; suspects and a sample of refused requests "
+                                "re-sent with the real handlers and compared by deep state fingerprint")
+    rcon.search(ctx, registry(), scenarios(ctx), zoo_seeds=[7] if not ctx.thorough else [7, 8, 9],
+                gen_families=[] if not ctx.thorough else [("lan", 3), ("routed", 4), ("dmz", 5)])
+    _stage(ctx, "contract-search+raw-live", t0)
+    t0 = time.time()
+    edits(ctx)
+    _stage(ctx, "R-edits", t0)
+    t0 = time.time()
     # static part: schematic request tree (E4) x action templates (E5): C05_action_templates_resolve & co (Props/C05Schema.lean)
     from harness.props import c05x
     c05x.extra(ctx)
+    _stage(ctx, "static part (lean + R-schema + R-guards)", t0)
